@@ -257,7 +257,7 @@ theorem maxmin_terminates_partial (S : Sys) (hwf : WF S) (hsh : ∀ c ∈ S.acti
   maxmin_terminates_shared S hwf hsh nv hnv val0 fuel hfuel
 
 /-- with `nc` constraints: `#variables + #constraints + 1` is enough a fortiori -/
-theorem maxmin_terminates_partial' (S : Sys) (hwf : WF S) (hsh : ∀ c ∈ S.active, (S.cnst c).fatpipe = false) (nv nc : Nat)
+theorem maxmin_terminates_partial_nc (S : Sys) (hwf : WF S) (hsh : ∀ c ∈ S.active, (S.cnst c).fatpipe = false) (nv nc : Nat)
     (hnv : ∀ c ∈ S.active, ∀ e ∈ (S.cnst c).elems, e.1 < nv) (val0 : Nat → Rat) :
     (maxminSolve S 0 (nv + nc + 1) val0).isSome = true :=
   maxmin_terminates_shared S hwf hsh nv hnv val0 _ (by omega)
